@@ -288,10 +288,9 @@ Fixpoint trace_go (us : bool) (s0 s : st) (steps : list (op * outcome unit)) (ev
          && (zlen (up s) =? o_n) && zlist_eqb (get_enabled_uplink_channel_indices s) o_en
          && zlist_eqb (get_custom_uplink_channel_indices s) o_cus,
          is_ok o_plan && negb (is_panic o_apply) && (o_n =? n)
-         && (if in_range o_n dev || (negb us && (o_n <=? 256) && in_range 256 dev)
-             then ozs_eqb o_apply (Ok (target_obs o_n o_en o_cus dev)) else true)
-         && (if in_range o_n dev && (o_n <=? 128)
-             then forallb encodable pls && (Z.of_nat (List.length pls) <=? blocks 16 o_n + 1) else true))
+         && (if o_n <=? 256 then ozs_eqb o_apply (Ok (target_obs o_n o_en o_cus dev)) else true)
+         && (Z.of_nat (List.length pls) <=? blocks 16 o_n + 1)
+         && (if o_n <=? 128 then forallb encodable pls else true))
       | ESnap ob probes => (s, steps, snap_model s ob probes, snap_prop s0 (rev steps) ob probes)
       end in
     let r := trace_go us s0 s' steps' rest in
